@@ -1251,6 +1251,8 @@ def main(outfile):
 
     import py2lean_fsmtables                                     # separate module: FSM tables, __init__, _run_cb, _send_events, _event (C03)
     py2lean_fsmtables.main_fsmtables(os.path.join(os.path.dirname(outfile), 'TranslatedFsmTables.lean'), write_if_changed)
+    import py2lean_asyncinit                                     # separate module: async-init add-on, InitAsync, ValuePoll, small routines (C05)
+    py2lean_asyncinit.main_asyncinit(os.path.join(os.path.dirname(outfile), 'TranslatedAsyncInit.lean'), sys.modules[__name__])
 
 if __name__ == '__main__':
     main(sys.argv[1])
